@@ -29,6 +29,12 @@ CHECKS = {
         technique="exhaustive enumeration of a finite success grid + relational oracle on every converged execution + trace specification over hook events + fault injection (failpoints) into the initialisation cascade",
         ref="DESIGN.md 2/C04",
     ),
+    "C05": dict(
+        text="Runtime monitoring of bubble_point / dew_point / tp_flash and the binary diagrams: deterministic success grid (all pairs of shipped PC-SAFT hydrocarbon records with T_c ratio < 1.5 at thorough, every 12th at quick) x T in {0.65,..,0.9} T_c,low x x in {0.05,..,0.95}: bubble, dew and a flash at (p_bub+p_dew)/2 must be found (14 long-alkane + ring pairs whose flash fails today are KNOWN-FINDING F24); on every returned equilibrium, also for random zoo mixtures (PC-SAFT incl. associating/polar, gc-PC-SAFT, SAFT-VR Mie, PR; binaries/ternaries, random k_ij, random guesses, starved and loose solver options, first flash initialisation disabled by a failpoint): equal T (exact), equal p, equal chemical potentials (1e-5 kT), phases not copies, flash component balance 1e-12 and specified T,p, specified composition kept 1e-13, p_bub >= p_dew for stable saturated phases, hook trace 'Ok only after a converged event'; binary_vle, bubble/dew lines state by state and without panics. Collapsed ideal-gas pseudo-equilibria are KNOWN-FINDING F28.",
+        note="Isofugacity is evaluated as equality of mu_res/kT + ln rho_i, which does not involve the (possibly vanishing) pressure. Phases count as copies below the library's own 1e-5 threshold.",
+        technique="exhaustive enumeration of a finite success grid + relational oracle on every converged execution + trace specification over solver events + fault injection (failpoint on the first flash initialisation, starved options)",
+        ref="DESIGN.md 2/C05",
+    ),
     "C06": dict(
         text="Runtime monitoring of State::critical_point / critical_point_binary / spinodal: for every pure shipped record (unguided, guided by initial temperatures in [0.5,1.6] T_c, and with the 300/700/500 K trial ladder forced through failpoints) dp/dV and d2p/dV2 vanish (1e-6 of rho k T / V) at positive pressure; random Peng-Robinson triples reproduce (T_c,p_c) (2e-4, 5-digit textbook constants); mixtures: smallest eigenvalue of the scaled composition Hessian and the cubic form along its eigenvector, both recomputed independently from dmu_dni with nalgebra and finite differences, vanish (1e-4); binary critical points echo T / reproduce p; spinodals have vanishing dp/dV or eigenvalue, bracket the critical density and lie inside the binodal. Recorded defects F18 (negative-pressure stationary points of SAFT-VR Mie) and F19 (spinodal returns the vapour branch twice at low T) are KNOWN-FINDING.",
         note="Mixture criticality is recomputed outside critical_point.rs; tolerance 1e-4 covers the finite-difference error of the cubic form. Positive pressure is demanded for pure substances only, as the statement says.",
@@ -40,6 +46,12 @@ CHECKS = {
         note="Pair tolerances 1e-9..1e-13 scaled by the state's residual energy scale (1e-3 for the VRQ/VR Mie pair whose hard-sphere diameters use different quadratures; relaxed at low density for functionals). Harness closed forms (BMCSL, PR, GC combining rules) are trusted.",
         technique="differential oracle on executions: two implementations of one model on the same seeded random states",
         ref="DESIGN.md 2/C08",
+    ),
+    "C09": dict(
+        text="Metamorphic monitoring over every model family (EoS and functionals), 1-4 components: random permutation of records + binary matrix + moles permutes component-indexed results and leaves scalars unchanged; zero-mole padding leaves the residual properties of the others unchanged; splitting a component into identical twins changes nothing; Components::subset with non-default options equals the model built directly from the selected records (max density exact, state properties, contribution names) and the mixture-level helpers (vapor_pressure, vle_pure_comps, critical_point_pure, ln_phi_pure_liquid, activity coefficients, Henry constants) equal the pure-model values. Recorded defects (asymmetric EoS quadrupole pair term F16, ePC-SAFT twin water F25, SAFT-VR Mie association NaN F26) are KNOWN-FINDING.",
+        note="Tolerance 3e-9 on normalised deviations with an explicit round-off model (low density, chain functionals, trace components, association branch switch).",
+        technique="metamorphic / differential oracle on executions: relabelled, padded, split and subset models against the original on seeded random states",
+        ref="DESIGN.md 2/C09",
     ),
     "C10": dict(
         text="Runtime monitoring of Total = IdealGas + Residual for every selector-taking getter (each selector on a fresh state), residual-API vs selector-API agreement, p_IG = rho R T in SI, ideal mixing of mu^IG, residual properties vanishing like rho at 1e-8..1e-4 rho_max, and c_p^IG from the Helmholtz derivative vs harness closed forms of the Joback polynomial and DIPPR 100/107/127 for every poling2000 record, every gc substance assembled from joback1987 groups and random coefficient sets, T in [150,1500] K, pure and mixtures.",
@@ -65,6 +77,18 @@ CHECKS = {
         note="Segment tables are increments (published tables contain a negative m for >C<), positivity is therefore demanded of assembled molecules. The file-to-record-type table is part of the check; a new or missing file makes the run inconclusive.",
         technique="exhaustive enumeration of the shipped records driving the real loaders and solvers, with relational oracles per record",
         ref="DESIGN.md 2/C15",
+    ),
+    "C16": dict(
+        text="Runtime monitoring of uniform profiles on every grid type (Cartesian 1-3D, periodic 2-3D with random angles, polar, spherical, cylindrical; 16..4096 points; Lanczos none/1-3) for 8 functional families x 3 FMT versions, pure and mixtures, liquid- and vapour-like: weighted densities equal the bulk weighted densities, Euler-Lagrange residual (plain and log) vanishes, grand potential density = -p, N_i = rho_i x integrate(1), Omega = -p x integrate(1), integrate(1) = closed-form domain volume = volume(); through Pore1D/2D/3D, SolvationProfile, PairCorrelation and PlanarInterface with zero potential: excess grand potential, interfacial tension, excess adsorption, solvation free energy, equimolar radius = 0, g(r) = 1.",
+        note="Convolution clauses use 1e-8 (Kierlik-Rosinberg weights amplify round-off ~ eps (pi R/dx)^2), integrals 1e-9. The volume clause is not applied to Cartesian pore axes with their deliberate potential_offset. gc ring molecules are outside the functional's domain (library panics) and excluded.",
+        technique="relational oracle on executions: the bulk equation of state is the reference for the discretised functional on uniform profiles",
+        ref="DESIGN.md 2/C16",
+    ),
+    "C17": dict(
+        text="Runtime monitoring of the variational consistency of the discretised functional on smooth non-uniform profiles: adjointness of weighted-density and functional-derivative convolutions per weight function (1e-9 Cartesian/periodic, 1e-3 spherical n>128), first-order energy identity vs Richardson finite differences, and - through the verif re-exports - delta_functional_derivative, delta_bond_integrals and the assembled Newton operator vs finite differences of the functional derivative / Euler-Lagrange residual in every geometry (1e-6), plus super-linear residual decay of a Newton-only DFTSolver. First order and adjointness on polar/cylindrical grids (and spherical n<=128) are measured and reported but not judged: their discretisation error is within 100x of a real slip.",
+        note="Uses hooks DFTProfile::verif_* (feature verif). Finite-difference error bars as in C01.",
+        technique="relational oracle on executions: analytic functional derivatives and linearised operator vs finite differences of the same discretised functional; adjointness as an exact discrete identity",
+        ref="DESIGN.md 2/C17",
     ),
     "C20": dict(
         text="Runtime monitoring of entropy-scaling transport properties (all 146 loetgeringlin2018 records, random binaries, SAFT-VRQ Mie with synthetic coefficients): X = X_ref exp(ln X_reduced) (1e-13), correlation vs harness closed form, positive and finite, mixture with vanishing second component -> pure value, equal s_res/m -> equal reduced property; and of the estimator: every data-set type predicts what the wrapped library call returns in the documented unit, model-generated targets give zero relative difference and zero cost for every loss, NaN policy at failed points, Estimator::cost weight normalisation, each robust loss vs sqrt(f^2 rho(r^2/f^2)) over 5e6 residuals of both signs. Recorded defect F22 (negative thermal-conductivity reference for long chains) is KNOWN-FINDING.",
